@@ -180,8 +180,10 @@ fn run_boundary(ctx: &Ctx) -> Report {
     let cap: usize = ctx.pick(1 << 20, 1 << 22);
     for kind in ALL_KINDS {
         if kind.windowed() {
-            for _ in 0..ctx.pick(3, 12) {
-                let n = rng.range(4097, cap);
+            let fixed = [(1usize << 16) + 1, (1 << 20) + 1, (1 << 21) + 3];
+            for j in 0..ctx.pick(3, 12) + fixed.len() {
+                // three fixed sizes just above 2^16, 2^20 and 2^21 (a silent cap or a narrower counter), then sampled ones
+                let n = if j < fixed.len() { fixed[j] } else { rng.range(4097, cap) };
                 let mut p = Params::new1(kind, n);
                 if kind == Kind::Slow {
                     p.p[1] = rng.range(1, 1 << 40);
